@@ -8,6 +8,7 @@ CONSTANTS NMsgs, ScriptSet, Script2Set, UseLogger, RecheckThread, SafeEnv, Locks
 Scripts ==
     [ sync      |-> <<>>,                                                   \* never asynchronous
       quit      |-> <<"appCreate", "move", "execQuit", "appDestroy">>,      \* stop on application quit
+      quit2     |-> <<"appCreate", "execQuit", "appDestroy">>,              \* ... with the move made by the second thread
       reset     |-> <<"appCreate", "move", "reset">>,                       \* explicit stop
       dtor      |-> <<"appCreate", "move", "execQuit", "appDestroy", "reset">>, \* quit, then the destructor's stop
       cycle     |-> <<"appCreate", "move", "reset", "move", "reset">>,      \* start/stop cycles
@@ -21,9 +22,13 @@ Scripts ==
 
 Scripts2 == [ none |-> <<>>, reset |-> <<"reset">>, move |-> <<"move">> ]
 
+\* does moveToOwnThread() move the new thread object to the main thread (the code does; overridden by the witness)
+MCRehome == TRUE
+NoRehome == FALSE
+
 MCInit ==
     /\ Init
-    /\ conf = [useLogger |-> UseLogger, recheck |-> RecheckThread, safeEnv |-> SafeEnv, locks |-> Locks, eager |-> FALSE, rt |-> RealTime, disc |-> Disconnect, fatalEvery |-> FatalEvery]
+    /\ conf = [useLogger |-> UseLogger, recheck |-> RecheckThread, safeEnv |-> SafeEnv, locks |-> Locks, eager |-> FALSE, rt |-> RealTime, disc |-> Disconnect, fatalEvery |-> FatalEvery, rehome |-> MCRehome]
     /\ todo = [t \in Producers |-> [i \in 1..NMsgs |-> <<t, i>>]]
     /\ \E a \in ScriptSet, b \in Script2Set :
           script = [s \in Stoppers |-> IF s = "M" THEN Scripts[a] ELSE Scripts2[b]]
